@@ -15,12 +15,25 @@ def instances(tier):
     for name, n in int_types():
         for pre in pres:
             out.append((T, f'VH_C03_int_{name}', [pre], {'weight': n}))
+    src = open(f'{REPO}/tlb/integers.go').read()
+    for k, n in re.findall(r'^type (Uint|Int)(\d+) big\.Int$', src, re.M):
+        for pre in ([0, 3] if tier == 'quick' else [0, 1, 3, 5, 7]):
+            out.append((T, f'VH_C03_big_{k}{n}', [pre], {'weight': 40}))
+    Ns = sorted(int(n) for n in re.findall(r'^type VarUInteger(\d+) big\.Int$', src, re.M))
+    for N in Ns:
+        if tier == 'quick' and N not in (1, 2, 3, 4, 7, 8, 9, 15, 16, 17, 31, 32):
+            continue
+        for nb in range(0, N):
+            for pre in ([0] if tier == 'quick' else [0, 5]):
+                out.append((T, f'VH_C03_var_VarUInteger{N}', [nb, pre], {'weight': nb + 1}))
+    for h in ('VH_C03_TickTock', 'VH_C03_ShardIdent', 'VH_C03_combinators', 'VH_C03_Grams', 'VH_C03_SignedCoins'):
+        out.append((T, h, [], {'weight': 60}))
     return out
 
 
 CHECK = dict(
-    id='C03', pkgs=['tlb'], init_pkgs=['std:io', 'boc'], instances=instances, opts={'budget_s': 900},
-    gen=[('harness/gen/gen_ints.py', 'tlb', 'gen_ints.go')],
+    id='C03', pkgs=['tlb'], init_pkgs=['std:io', 'boc', 'tlb'], instances=instances, opts={'budget_s': 900},
+    gen=[('harness/gen/gen_ints.py', 'tlb', 'gen_ints.go'), ('harness/gen/gen_bigints.py', 'tlb', 'gen_bigints.go')],
     level_text='Every generated fixed-width integer type (harness generated from the current tlb/integers.go) is encoded and decoded symbolically over its ENTIRE n-bit domain at several bit offsets, with arbitrary neighbouring bits: round trip, exact consumption, identical re-encoding.',
     level_note='work in progress: big integers, hand-written codecs and reflection-driven structs follow',
     bounds={'quick': {'types': 'all UintN/IntN in tlb/integers.go', 'bit offsets': [0, 7]}, 'thorough': {'bit offsets': [0, 1, 2, 3, 4, 5, 6, 7, 13]}},
